@@ -705,11 +705,11 @@ MANIFEST_ENTRY = {
     'text': ('PARTIAL.  PROVED for all orders n and all arguments (Lean 4, Mathlib; no sorry, standard axioms): the Lean text '
              'translated statement-by-statement from the current source of recurrence_abc, jacobi, hermite_He, hermite_H, laguerre, '
              'dickson1, dickson2 and Qbfs (for-loops included, NumPy arithmetic read point-wise) computes the hand model; recurrence_abc '
-             'is DLMF 18.9.2 for every n>=1 and yields P_1 at n=0 in both branches; jacobi is the DLMF-recurrence family AND equals DLMF 18.5.7's explicit hypergeometric sum sum_l (n+a+b+1)_l (a+l+1)_(n-l)/(l!(n-l)!) ((x-1)/2)^l for every n and alpha,beta>-1; '
+             'is DLMF 18.9.2 for every n>=1 and yields P_1 at n=0 in both branches; jacobi is the DLMF-recurrence family AND equals the explicit hypergeometric sum of DLMF 18.5.7, sum_l (n+a+b+1)_l (a+l+1)_(n-l)/(l!(n-l)!) ((x-1)/2)^l for every n and alpha,beta>-1; '
              'P_n(1)=prod (k+alpha+1)/(k+1) for alpha,beta>-1; reflection P_n^(a,b)(-x)=(-1)^n P_n^(b,a)(x); cheby1/2 as wired in the '
              'source equal Mathlib Chebyshev T/U, cheby3/4 equal the V/W recurrences; Legendre satisfies Bonnet; hermite_He = '
              'Mathlib Polynomial.hermite, hermite_H(x) = s^n He_n(s x) for s^2=2; dickson1/2 = Mathlib Polynomial.dickson 1/2; '
-             'laguerre satisfies DLMF 18.9.13 and equals DLMF 18.5.12's explicit sum for every n, alpha>-1; Zernike/Qcon/XY/Hopkins wiring equals their definitions (sqrt, sin, cos as parameters); '
+             'laguerre satisfies DLMF 18.9.13 and equals the explicit sum of DLMF 18.5.12 for every n, alpha>-1; Zernike/Qcon/XY/Hopkins wiring equals their definitions (sqrt, sin, cos as parameters); '
              'Zernike norm^2 = 2(n+1)/(1+delta_m0).  TESTED ONLY (not proved): orthogonality of Jacobi/Chebyshev/Legendre/Hermite/'
              'Laguerre under their weights, Zernike orthonormality over the disk, orthonormal Qbfs slopes and 2D-Q gradients — Gauss quadrature exact '
              'in the degree, orders up to the tier bound; the full statements are kept as `…_full : Prop` in Props/C07.lean.  '
